@@ -137,7 +137,10 @@ theorem chunks_of_blocks (bl : List Bytes) (hbl : ∀ b ∈ bl, b.length = 16) :
 /-- ciphertext length = padded plaintext length -/
 theorem adapter_encrypt_len (B : BlockCipher) (hB : BlockInv B) (key : Bytes) (iv : Option Bytes) (d c : Bytes)
     (h : Adapter.encrypt B key iv d = .ok c) : c.length = (zeroPad d).length := by
-  simp only [Adapter.encrypt, Except.bind_eq_ok] at h
+  simp only [Adapter.encrypt] at h
+  split at h
+  · cases h
+  simp only [Except.bind_eq_ok] at h
   obtain ⟨⟨k, ivb⟩, _, blocks, hfeed, hc⟩ := h
   simp only [pure, Except.pure, Except.ok.injEq] at hc
   subst hc
@@ -157,7 +160,10 @@ theorem adapter_encrypt_len (B : BlockCipher) (hB : BlockInv B) (key : Bytes) (i
 theorem adapter_decrypt_encrypt (B : BlockCipher) (hB : BlockInv B) (key : Bytes) (iv : Option Bytes) (d c : Bytes)
     (h : Adapter.encrypt B key iv d = .ok c) : Adapter.decrypt B key iv c = .ok (zeroPad d) := by
   have hlen := adapter_encrypt_len B hB key iv d c h
-  simp only [Adapter.encrypt, Except.bind_eq_ok] at h
+  simp only [Adapter.encrypt] at h
+  split at h
+  · cases h
+  simp only [Except.bind_eq_ok] at h
   obtain ⟨⟨k, ivb⟩, hmode, blocks, hfeed, hc⟩ := h
   simp only [pure, Except.pure, Except.ok.injEq] at hc
   have hivb : ivb.length = 16 := by
@@ -188,7 +194,9 @@ theorem adapter_decrypt_encrypt (B : BlockCipher) (hB : BlockInv B) (key : Bytes
       have h1 : ¬ (c.length = 0 ∨ c.length % 16 ≠ 0) := by
         rw [hlen]; exact hcond
       rw [if_neg h1, ← hc, chunks_of_blocks _ hcall]
-    simp only [Adapter.decrypt, hmode, hfeed2, bind, Except.bind, pure, Except.pure]
+    have h1 : ¬ (c.length = 0 ∨ c.length % 16 ≠ 0) := by
+      rw [hlen]; exact hcond
+    simp only [Adapter.decrypt, if_neg h1, hmode, hfeed2, bind, Except.bind, pure, Except.pure]
     rw [cbcDec_cbcEnc B hB k ivb _ hivb hall, chunks_flatten 16 _ (by omega)]
 
 end Bec2Verif
